@@ -11,7 +11,7 @@ import smt_common
 from scratch import Inconclusive
 
 
-def run(o, tier, seed, log_path):
+def run(o, tier, seed, log_path, part="all"):
     path = mir.dump(log_path)
     text, consts, fns = mir2smt.load(path)
     G = mir2smt.find_fn(fns, consts, r"^fn get_gas_limit\(")
@@ -39,7 +39,26 @@ def run(o, tier, seed, log_path):
         ("twin: the saturated case is reachable|sat", [f"(= {g_n} {MAX})", "(bvult n (_ bv18446744073709551615 64))"]),
         ("twin: the exact case is reachable|sat", [f"(= {g_n} (_ bv24000 64))"]),
     ]
+    groups = {
+        "spec": [0, 1, 5, 6, 7],       # constant, closed form, no panic, both twins
+        "inverse": [2, 3, 7],          # the inverse used for parked transactions
+        "monotone": [4, 6],
+        "all": list(range(len(q))),
+    }
+    q = [q[i] for i in groups[part]]
     r = smt_common.decide(pre, q, log_path)
     r["functions"] = ["engine::utils::get_gas_limit", "engine::utils::get_inscription_byte_len", "global::config::GAS_PER_BYTE"]
     r["encoding"] = {"get_gas_limit(n)": g_n, "get_inscription_byte_len(g)": l_g}
     return r
+
+
+def run_spec(o, tier, seed, log_path):
+    return run(o, tier, seed, log_path, "spec")
+
+
+def run_inverse(o, tier, seed, log_path):
+    return run(o, tier, seed, log_path, "inverse")
+
+
+def run_monotone(o, tier, seed, log_path):
+    return run(o, tier, seed, log_path, "monotone")
